@@ -17,7 +17,7 @@ func init() {
 			"R03.3 the width table used for integer representability equals 8*sizeof of each integer kind of the analysed configuration and lists every integer kind; " +
 			"R03.4 the representability bound applied to signed kinds differs from the one applied to unsigned kinds of the same width and the full-width comparison is unreachable for signed kinds; " +
 			"R03.5 the two places that advance scope.iota reset it on the last spec and increment it otherwise, identically. Arbitrary-precision arithmetic, default types and rounding are computed by go/constant and trusted.",
-		Assumptions: []string{"go/constant computes exact results", "the width table is checked for the host configuration (64-bit int), which is the configuration programs are compared on"},
+		Assumptions: []string{"go/constant computes exact results", "the width table is checked for the host configuration in the quick tier and also for GOARCH=386 in the thorough tier"},
 		Run:         runC03,
 	})
 	ruleText["R03.1"] = "for every action a with a constant folder, constOp[a] passes to go/constant (BinaryOp/UnaryOp/Shift/Compare), and uses directly, exactly the operator of a (QUO_ASSIGN being go/constant's integer division for /)"
@@ -44,6 +44,15 @@ func runC03(c *Config, r *Report) {
 	c03R4(ic, r)
 	c03R5(ic, r)
 	c03R6(ic, r)
+	if c.Tier == "thorough" {
+		ic386, err := loadInterp(c, false, "GOARCH=386")
+		if err != nil {
+			r.Errorf("GOARCH=386: %v", err)
+			return
+		}
+		c03R3cfg(ic386, r, "GOARCH=386/")
+		r.Note("thorough: R03.3 repeated for the 32-bit configuration GOARCH=386")
+	}
 }
 
 // c03R6: literals are materialised by go/constant's own parser.
@@ -395,6 +404,31 @@ func widthTable(ic *IC) (*types.Var, map[string]int64, *ast.CompositeLit) {
 }
 
 func c03R3(ic *IC, r *Report) {
+	c03R3cfg(ic, r, "")
+	// the kinds whose size depends on the platform must not be written as literals
+	v, _, cl := widthTable(ic)
+	if v == nil {
+		return
+	}
+	for _, e := range cl.Elts {
+		kv, ok := e.(*ast.KeyValueExpr)
+		if !ok {
+			continue
+		}
+		se, ok := unparen(kv.Key).(*ast.SelectorExpr)
+		if !ok {
+			continue
+		}
+		switch se.Sel.Name {
+		case "Int", "Uint", "Uintptr":
+			_, lit := unparen(kv.Value).(*ast.BasicLit)
+			r.Check(!lit, "R03.3", v.Name()+"/"+se.Sel.Name+"/platform-dependent", ic.pos(kv.Pos()), "width taken from a platform-dependent constant ("+types.ExprString(kv.Value)+")",
+				"the width of reflect."+se.Sel.Name+" is the literal "+types.ExprString(kv.Value)+": on a host where int has another size (GOARCH=386) out-of-range constants are accepted and wrap (var x int = 5000000000)")
+		}
+	}
+}
+
+func c03R3cfg(ic *IC, r *Report, prefix string) {
 	v, ent, cl := widthTable(ic)
 	if v == nil {
 		r.Errorf("anchor not resolved: integer width table (literal keyed by reflect integer kinds)")
@@ -410,7 +444,7 @@ func c03R3(ic *IC, r *Report) {
 	for _, k := range sortedKeys(want) {
 		w := 8 * sz.Sizeof(types.Typ[want[k]])
 		got, ok := ent[k]
-		key := v.Name() + "/" + k
+		key := prefix + v.Name() + "/" + k
 		switch {
 		case !ok:
 			r.Fail("R03.3", key, ic.pos(cl.Pos()), "the width table has no entry for reflect."+k+": its width reads as 0 and every constant is reported as overflowing (or none)")
@@ -420,7 +454,7 @@ func c03R3(ic *IC, r *Report) {
 	}
 	for k := range ent {
 		if _, ok := want[k]; !ok {
-			r.Fail("R03.3", v.Name()+"/"+k, ic.pos(cl.Pos()), "the width table lists reflect."+k+", which is not an integer kind")
+			r.Fail("R03.3", prefix+v.Name()+"/"+k, ic.pos(cl.Pos()), "the width table lists reflect."+k+", which is not an integer kind")
 		}
 	}
 }
